@@ -590,6 +590,10 @@ class DataboxWorld(World):
                 bad = conforms(real, mutable[i], f"{opname} series")
                 if bad:
                     raise Violation(bad[0], opname, pred, "", bad[1])
+                # values of the selected series change; its description is not what the operation addresses
+                want_desc = mutable[i].desc if mutable[i].desc is not None else m.desc
+                if real.get_description() != want_desc:
+                    raise Violation("isolation", opname, pred, "", f"description of a selected series changed from {want_desc!r} to {real.get_description()!r}")
                 continue
             now = snapshot(real)
             if now != self.snaps[i]:
@@ -1049,7 +1053,7 @@ class DataboxWorld(World):
             e = sm.t_nvar(m, a["num"])
             thunk = lambda: box[n].alter_num_variants(a["num"])
         else:
-            e = Exp(m.freq, m.nv, m.cells)
+            e = Exp(m.freq, m.nv, m.cells, desc=a["desc"])
             thunk = lambda: box[n].set_description(a["desc"])
         opname = "item." + kind
         status, r, _ = self._run(opname, "", thunk)
